@@ -85,6 +85,14 @@ Ill ==
      \/ ty = "b" /\ \E fn \in {"contains", "len", "next"} : Set(Call(fn, <<e>>), "b")
      \/ ty = "x" /\ \E a \in NumAtoms : Set(Bin("add", e, a), "n") \/ Set(Cmp1("lt", a, e), "b") \/ Set(Not(e), "b")
      \/ ty = "x" /\ \E fn \in {"contains", "len", "sum", "trim"} : Set(Call(fn, <<e>>), "b")
+     \* a comprehension / bare generator over something that is not iterable; a bare generator is the WHOLE expression, so
+     \* its failure surfaces only when the caller materialises it (EvalTop)
+     \/ ty \in {"n", "b", "d", "x"} /\ \E kk \in {"genexp", "listcomp"} :
+           Set([k |-> kk, elt |-> [k |-> "name", n |-> "q"], gens |-> <<[var |-> "q", iter |-> e, ifs |-> <<>>]>>], "l")
+     \/ ty = "l" /\ \E kk \in {"genexp", "listcomp"} :
+           Set([k |-> kk, elt |-> [k |-> "attr", obj |-> [k |-> "name", n |-> "q"], a |-> "nope"], gens |-> <<[var |-> "q", iter |-> e, ifs |-> <<>>]>>], "l")
+     \/ ty = "l" /\ \E kk \in {"genexp", "listcomp"}, a \in {StrAtoms_Small[1]} :
+           Set([k |-> kk, elt |-> Bin("add", [k |-> "name", n |-> "q"], a), gens |-> <<[var |-> "q", iter |-> e, ifs |-> <<>>]>>], "l")
 
 Next == Wrap \/ Ill
 Spec == Init /\ [][Next]_vars
@@ -93,7 +101,8 @@ Spec == Init /\ [][Next]_vars
 Good(x) == ~IsBad(x)
 TruthOf(x) == IF IsBad(x) THEN x ELSE B(Truthy(x))
 \* double negation: not not e has the truth value of e (and fails iff e fails)
-DoubleNeg == V(Not(Not(e)), ei) = TruthOf(val)
+\* (a bare generator is materialised only when it is the whole expression, so the law is not stated for it)
+DoubleNeg == e.k # "genexp" => V(Not(Not(e)), ei) = TruthOf(val)
 \* De Morgan on the top-level connective
 DeMorgan ==
   (e.k = "boolop" /\ Len(e.vals) = 2) =>
